@@ -226,11 +226,19 @@ def make_strike_case(rng, wrap=False):
     w.heal(600)
     for _round in range(rng.randrange(1, 4)):
         w.salt += 1
-        w.apply(["send", n, 0, rng.choice("sb"), rng.choice([5000, 9000, 20000, 70000]), w.salt])
-        if len(w.ep[n].channels) > 1 and rng.random() < 0.7:
-            # a reliable message right behind the burst: it waits in the data channel queue while the burst is in flight
+        small_first = len(w.ep[n].channels) > 1 and rng.random() < 0.3
+        if small_first:
+            # the mirror image: ONE small partially reliable message (lost, given up after the strikes) with a large
+            # reliable message right behind it, of which only the head fits into the congestion window
+            w.apply(["send", n, 0, rng.choice("sb"), rng.choice([1, 10, 100]), w.salt])
             w.salt += 1
-            w.apply(["send", n, 1, "b", rng.choice([10, 3000]), w.salt])
+            w.apply(["send", n, 1, "b", rng.choice([9000, 20000, 48000]), w.salt])
+        else:
+            w.apply(["send", n, 0, rng.choice("sb"), rng.choice([5000, 9000, 20000, 70000]), w.salt])
+            if len(w.ep[n].channels) > 1 and rng.random() < 0.7:
+                # a reliable message right behind the burst: it waits in the data channel queue while the burst is in flight
+                w.salt += 1
+                w.apply(["send", n, 1, "b", rng.choice([10, 3000]), w.salt])
         while w.ep[n].tasks:
             w.apply(["task", n])
         # lose one (or two) of the first datagrams in flight, deliver the later ones
@@ -249,6 +257,24 @@ def make_strike_case(rng, wrap=False):
                 w.apply(["deliver", n, 0])
             if rng.random() < 0.3 and w.ep[n].tasks:
                 w.apply(["task", n])
+        if rng.random() < 0.6:
+            # an outage right after the message was given up: everything in flight (the FORWARD TSN included) is lost in
+            # both directions, T3 fires once or twice into the outage, then the application stays quiet
+            for _ in range(rng.randrange(1, 3)):
+                for x in "AB":
+                    while w.net[x]:
+                        w.apply(["drop", x, 0])
+                while w.ep[n].tasks:
+                    w.apply(["task", n])
+                if any(h.name == "t3" for h in w.ep[n].armed()):
+                    w.apply(["fire", n, "t3"])
+                    while w.ep[n].tasks:
+                        w.apply(["task", n])
+            for x in "AB":
+                while w.net[x]:
+                    w.apply(["drop", x, 0])
+            w.heal(800)
+            return dict(case, ops=list(w.oplog))
         if rng.random() < 0.5:
             w.heal(600)
     prof = dict(PROFILES["mixed-pr"], channels=2, sizes=[10, 3000, 9000])
